@@ -164,6 +164,22 @@ def oracles(ctx, cfg, rec, replay, rng):
         ctx.violation("C19:scores-uncorrelated", "OPA scores are not mutually uncorrelated with equal norms: Gram matrix %r (%r)" % (np.round(Gm, 8).tolist(), short), replay)
     if abs(dg.max() - (n - 1)) > 1e-7 * (n - 1):
         ctx.violation("C19:scores-norm", "squared norm of the score series is %r, expected n_samples - 1 = %d" % (dg.tolist(), n - 1), replay)
+    # (a') "uncorrelated" and "autocorrelation" are statements about deviations from the series' own means
+    scm = sc - sc.mean(axis=0)
+    if k > 1 and np.all(scm.std(axis=0) > 0):
+        R = np.corrcoef(scm.T)
+        offc = float(np.abs(R - np.diag(np.diag(R))).max())
+        if offc > 1e-7:
+            ctx.violation("C19:scores-correlated", "OPA score series are correlated: largest |Pearson correlation| between two series is %.3g (%r)" % (offc, short), replay)
+    sdv = scm.std(axis=0)
+    if np.ptp(sdv) > 1e-7 * max(sdv.max(), 1e-300):
+        ctx.violation("C19:scores-unequal-spread", "OPA score series have unequal standard deviations %r (%r)" % (np.round(sdv, 8).tolist(), short), replay)
+    for j in range(k):
+        oc = own_time(scm[:, j], tm)
+        if abs(oc - own_time(sc[:, j], tm)) > 1e-6 * max(1.0, abs(oc)):
+            ctx.violation("C19:decorrelation-of-mean-removed-series", "mode %d: the autocorrelation sum of the series about its own mean is %.10g, decorrelation_time() reports %.10g (%r)"
+                          % (j + 1, oc, rep[j], short), replay)
+            break
     # (b) filter patterns bi-orthogonal to the optimally persistent patterns (public, physical space)
     B = rec["filt_api"].T @ rec["comps_api"]
     bd = np.diag(B)
